@@ -88,6 +88,28 @@ Definition run_eval : dispatcher := fun op args =>
                 | _, _ => Some sx_bad end
     | _ => Some sx_bad
     end
+  else if opeq op "polls-date-months" then
+    match args with
+    | [n] => match as_N n with Some n' => Some (sx_N (date_months_polls_of n')) | None => Some sx_bad end
+    | _ => Some sx_bad
+    end
+  else if opeq op "polls-date-days" then
+    match args with
+    | [n] => match as_N n with Some n' => Some (sx_N (date_days_polls_of n')) | None => Some sx_bad end
+    | _ => Some sx_bad
+    end
+  else if opeq op "polls-lshift" then
+    match args with
+    | [n] => match as_N n with Some n' => Some (sx_N (lshift_n_insert_polls_of n')) | None => Some sx_bad end
+    | _ => Some sx_bad
+    end
+  else if opeq op "polls-bop" then
+    match args with
+    | [a; b] => match as_N a, as_N b with
+                | Some a', Some b' => Some (sx_N (dist_bop_polls a' b'))
+                | _, _ => Some sx_bad end
+    | _ => Some sx_bad
+    end
   else None.
 
 Definition run_eval_line : list N -> list N := run_with run_eval.
